@@ -24,6 +24,48 @@ CHECKS = {
         "Bounds: nx<=3, ny<=4, <=3 surfaces quick (nx<=4, ny<=7 thorough); random non-degenerate meshes of 7 shape classes, |alpha|,|beta|<=15 deg, rotation rates on half the cases, ground effect, left/right halves. " + TRUSTED,
         "5 C05, 3.5, 4.3",
     ),
+    "C04": (
+        "model_checking",
+        "TLC: OASTopology (ghost lattice = mirror image, fold) and OASLaws Halve/Unhalve law algebra; replay of every emitted behaviour and of half/full aerostructural pairs on the real code",
+        "The ghost/mirror topology is checked exhaustively in the box and the Halve/Unhalve laws are composed with mirror, scaling, translation and permutation to a depth bound; each behaviour is applied to concrete aerodynamic scenarios (totals equal, spanwise fields equal on the modelled half) and tube/wingbox aerostructural half/full pairs with weight relief, fuel, point masses are compared observable by observable (mass, cg, coefficients with wave drag separated, displacements, stresses, loads).",
+        "Bounds: depth 2 (quick) / 3 (thorough), nx<=3, half ny 3..4; constant control points feed identical distributions to both models; KS failure not compared (stresses are). Known findings F3, F4, F11 listed in known_findings.json. " + TRUSTED,
+        "5 C04, 3.5, 3.8",
+    ),
+    "C06": (
+        "model_checking",
+        "TLC: OASLaws exponent algebra (CoefficientsInvariant, DefiningIdentities, Composition) composed to depth; every emitted behaviour replayed on real AeroPoint scenarios, step law checked after every action",
+        "Scale-rho, scale-v, scale-length and translation actions are composed exhaustively to depth 2/3 over every scenario class (full/half, left/right, ground, rotation, 1-2 surfaces, compressible); TLC proves the type table consistent with L=qSCL, CM=M/(qS MAC), F=rho Gamma v x l; each behaviour is replayed on the real code and every observable compared with the predicted factor; L/D as components of the summed panel forces and area-weighted aircraft coefficients are checked directly.",
+        "Factors 2 and 1/3; translations x,y,z,u (x,z,u with symmetry plane; u with ground plane); tolerance 1e-9. " + TRUSTED,
+        "5 C06, 3.8",
+    ),
+    "C07": (
+        "model_checking",
+        "TLC: OASLaws Mirror sign/rank algebra (CrossProductRank, Involution, Composition) + OASTopology.LeftRightDual; replay on asymmetric full-span and left/right-half scenarios, aerostructural mirror pairs, symmetric fixed points, geometry design variables on left vs right halves",
+        "Mirror is composed with the other laws to a depth bound and every behaviour replayed; aerostructural tube/wingbox models are compared with their mirror images (loads, displacements, stresses, cg, CM with polar/axial signs and span reversal), mirror-symmetric models must be fixed points, and left-half vs right-half models must agree under every geometry design variable.",
+        "Known findings F5 (wingbox stresses), F6 (sweep/dihedral/taper on right halves), F7 (Rotate pre-rotation) listed in known_findings.json with narrow keys. " + TRUSTED,
+        "5 C07, 3.8",
+    ),
+    "C08": (
+        "model_checking",
+        "TLC: OASTopology image quadrant (multiplier -1) + OASLaws.ImageGround composed with other laws; replay against explicit reflected surfaces in free air; far-field decay; set-up rejection",
+        "Every behaviour containing ImageGround (depth 3/4) is replayed: the ground-effect model must equal a free-air model containing explicit mirror-image surfaces for every observable of the real surfaces; height sweeps over six decades must converge to free air at >=5x per decade; ground effect without symmetry must raise.",
+        "1-2 surfaces, left/right halves, no rotation rates (the image of a rotating aircraft is not a rigid rotation). " + TRUSTED,
+        "5 C08, 3.5, 3.8",
+    ),
+    "C09": (
+        "model_checking",
+        "TLC: OASPG exact rotation/exponent algebra over Pythagorean (alpha, beta, Mach) triples + OASLaws.Mach0; every OASPG state replayed: compressible model vs incompressible solver (or the independent interpreter) on rotated+stretched geometry",
+        "The wind-frame rotation is proved orthogonal with the free stream mapped to e_x and the exponent table consistent (normals/tangents, axisymmetry, identity at M=0) for all 144 Pythagorean triples; each state and random (alpha, beta, M) draws are replayed through the real compressible AeroPoint and compared with the incompressible solution on the transformed geometry scaled by the spec's exponents and rotated back; Mach-0 identity behaviours and Mach-grid continuity are checked.",
+        "|alpha|,|beta| up to 53 deg in the exact table (15 deg in random draws), M<0.94; rotation rates through the interpreter path. " + TRUSTED,
+        "5 C09",
+    ),
+    "C19": (
+        "model_checking",
+        "TLC: OASTopology numbering partition + mux/demux bijection, OASLaws.Permute; replay of permutations, column splits, far-away surfaces, MPhys wrapper groups vs native AeroPoint, mux/demux permutation and Jacobian in fwd and rev",
+        "Panel offsets and (de)multiplexer source indices are proved to be partitions/bijections for every surface list in the box; permutation behaviours are replayed (CM renormalised by the first surface's MAC), a full-span surface is split at every interior column, a surface is moved 10..1e6 chords away, and the MPhys solver/funcs groups fed through the spec's permutation must reproduce the native results; mux/demux total Jacobians must equal the spec's permutation matrix in both modes.",
+        "<=2 surfaces in replays (3 in TLC thorough); MPhys groups wired by hand without the MPI distributor. " + TRUSTED,
+        "5 C19, 3.5",
+    ),
 }
 PENDING = {}
 
